@@ -179,6 +179,36 @@ impl Item {
         }
     }
 
+    /// The same item with every head at its shortest width; framing (definite / indefinite, chunking) is kept.
+    pub fn shortest_heads(&self) -> Item {
+        let sf = |d: &Vec<u8>, f: &StrForm| match f {
+            StrForm::Def(_) => StrForm::Def(W::min_for(d.len() as u64)),
+            StrForm::Indef(c) => StrForm::Indef(c.iter().map(|(n, _)| (*n, W::min_for(*n as u64))).collect()),
+        };
+        match self {
+            Item::Uint(n, _) => Item::uint(*n),
+            Item::Nint(n, _) => Item::nint(*n),
+            Item::Bytes(d, f) => Item::Bytes(d.clone(), sf(d, f)),
+            Item::Text(d, f) => Item::Text(d.clone(), sf(d, f)),
+            Item::Array(v, l) => Item::Array(
+                v.iter().map(Item::shortest_heads).collect(),
+                match l {
+                    Len::Def(_) => Len::Def(W::min_for(v.len() as u64)),
+                    Len::Indef => Len::Indef,
+                },
+            ),
+            Item::Map(v, l) => Item::Map(
+                v.iter().map(|(k, x)| (k.shortest_heads(), x.shortest_heads())).collect(),
+                match l {
+                    Len::Def(_) => Len::Def(W::min_for(v.len() as u64)),
+                    Len::Indef => Len::Indef,
+                },
+            ),
+            Item::Tag(t, _, i) => Item::tag(*t, i.shortest_heads()),
+            o => o.clone(),
+        }
+    }
+
     /// Is every head the shortest one and every container definite?
     pub fn is_preferred(&self) -> bool {
         *self == self.preferred()
